@@ -134,6 +134,8 @@ def gen_pipes(r, nticks, tps, ram, focus=None, max_ops=5, offgrid=False):
                 big = r.randint(nops // 2, nops - 1)
                 ops[big]["segs"][0][2] = fstr(ram * F(r.choice([11, 15, 30]), 10))
             pipes.append({"prio": prio, "at": t, "ops": ops})
+            if r.random() < 0.25:
+                pipes[-1]["scratch_parents"] = True
     if not pipes and nticks > 0 and r.random() < 0.9:
         pipes.append({"prio": r.choice(PRIOS), "at": 0,
                       "ops": [{"par": [], "segs": [[fstr(F(2, tps)), "const", None, fstr(2 * unit)]]}]})
